@@ -125,6 +125,13 @@ class OptimizerMixin:
         else:
             raise TypeError(f"optimizer type must be string or type, got {type(opt_type)}")
 
+        # A scheduler drives the optimizer it was built for and must not outlive it: set_scheduler()
+        # builds the one for the new optimizer.  (If that never happens -- a later argument of the same
+        # call is rejected -- the stale scheduler would silently stop acting, until the next
+        # .to() / save() / clone() re-attached it to the new optimizer.)
+        if self._scheduler is not None and self._scheduler.optimizer is not self._optimizer:
+            self._scheduler = None
+
     def set_scheduler(
         self, scheduler_params: dict | None = None, num_iter: int | None = None
     ) -> None:
